@@ -138,6 +138,96 @@ def scn_dispatch(params):
         sim.close()
 
 
+def ref_valid_domain(d, allow_wildcard):
+    """The property's acceptance rule, written from its text."""
+    if not (3 <= len(d) <= 128):
+        return False
+    body = d
+    if d.startswith("*"):
+        if not allow_wildcard or not d.startswith("*."):
+            return False
+        body = d[2:]
+    if any(not (c.isascii() and (c.isalnum() or c in "-.")) for c in body):
+        return False
+    labels = d.split(".")
+    return len(labels) >= 2 and all(1 <= len(x) <= 63 for x in labels)
+
+
+def scn_startup(params):
+    """Engine A: the two programs themselves, started with a domain on their command line: iodined <net> <domain> serves
+    (reaches its main loop) exactly for accepted domains incl. a leading '*.'; iodine <nameserver> <domain> starts talking
+    (sends its first query) exactly for accepted domains without wildcard, whatever the name server argument looks like."""
+    from simnet import scen
+    from simnet.scen import US
+    out = {"violations": [], "nontrivial": [], "stats": {"startup_server_runs": 0, "startup_client_runs": 0}, "evaluations": 1, "sets": {}}
+    sim = scen.Sim("c17s-%d" % params["idx"], params["seed"])
+    try:
+        k = sim.k
+        dom = params["domain"]
+        wit = {"seed": params["seed"], "params": params}
+        if params["who"] == "server":
+            srv = sim.server(domain=dom)
+            k.run(k.now + 100000)
+            accepted = srv.alive() and srv.nwaits > 0
+            want = ref_valid_domain(dom, True)
+            out["stats"]["startup_server_runs"] = 1
+            who = "iodined"
+        else:
+            srv = sim.server()      # (something that answers, on the default domain)
+            c = sim.client("cli0", "10.53.1.1" if ":" not in params["ns"] else "fd53::1:1", params["ns"], ["-r"], domain=dom)
+            k.run(k.now + 3 * US)
+            accepted = any(ev[1] == "send" and ev[2] == "cli0" for ev in k.log)
+            want = ref_valid_domain(dom, False)
+            out["stats"]["startup_client_runs"] = 1
+            who = "iodine (name server argument %s)" % params["ns"]
+        if accepted != want:
+            out["violations"].append(("C17:startup:%s:%s" % (params["who"], "accepted-invalid" if accepted else "refused-valid"),
+                                      "%s %s the domain %r (%d characters), which the rule %s" % (who, "went on with" if accepted else "refused", dom[:70], len(dom),
+                                                                                                     "rejects" if accepted else "accepts"), wit))
+        else:
+            out["nontrivial"].append(repr(("startup", params["who"], params["kind"], want)))
+        return out
+    finally:
+        sim.close()
+
+
+def startup_params(ctx, rng):
+    def lab(n):
+        # (never a leading '-': on a command line that would be an option, which is getopt's business, not the rule's)
+        return rng.choice("abcdefghijklmnopqrstuvwxyz") + "".join(rng.choice("abcdefghijklmnopqrstuvwxyzABCDEFGHIJ0123456789-") for _ in range(n - 1))
+
+    def dom_of_len(n):
+        parts = []
+        left = n
+        while left > 0:
+            m = min(left, rng.choice([1, 3, 10, 40, 63]))
+            if left - m == 1:
+                m = left if left <= 63 else m - 1
+            parts.append(lab(m))
+            left -= m + 1
+        if len(parts) < 2:
+            parts = [lab(max(1, n - 2)), lab(1)] if n >= 3 else parts
+        return ".".join(parts)
+
+    cases = []
+    for n in (3, 4, 64, 100, 126, 127, 128, 129, 130, 150, 201, 255):
+        cases.append(("len%d" % n, dom_of_len(n)))
+    cases += [("wild", "*." + dom_of_len(20)), ("wild-129", "*." + dom_of_len(127)), ("label63", lab(63) + ".example.com"),
+              ("label64", lab(64) + ".example.com"), ("badchar", "bad_domain!.example.com"), ("nodots", "nodots"),
+              ("dots2", "t..example.com"), ("leading-dot", ".t.example.com"), ("trailing-dot", "t.example.com."),
+              ("star-inside", "t.*.example.com"), ("star-nodot", "*t.example.com"), ("plain", "t.example.com"), ("mixed", "T-1.Example.COM")]
+    plist = []
+    i = 0
+    n = ctx.pick(60, 1500)
+    while len(plist) < n:
+        kind, dom = cases[i % len(cases)] if i < 3 * len(cases) else (lambda x: ("len%d" % x, dom_of_len(x)))(rng.choice([rng.randint(1, 140), 128, 129]))
+        who = "server" if i % 2 == 0 else "client"
+        plist.append({"idx": i, "seed": ctx.seed * 100000 + 50000 + i, "who": who, "kind": kind, "domain": dom,
+                      "ns": rng.choice(["10.53.0.1", "10.53.0.1", "fd53::1"])})
+        i += 1
+    return plist
+
+
 def run(ctx):
     res = core.Result()
     res.rule = (
@@ -173,6 +263,7 @@ def run(ctx):
         "query_datalen is only specified for domains accepted by the validator (with wildcard allowed); "
         "other domains are not passed to it",
         "ASan red zones around exact-size heap copies detect reads before/after the name and the domain",
+        "start-up (Engine A part): 'accepted' = iodined reaches its main loop / iodine sends its first query; domains are given as the last command-line argument, the client's name server as IPv4 or IPv6 literal",
         "dispatch (Engine A part): a query is 'handled as tunnel traffic' when the server answers it itself; with -b a name outside the domain must be forwarded exactly once and a name inside never",
     ]
     res.min_nontrivial = 12
@@ -211,6 +302,20 @@ def run(ctx):
         for kk, vv in dres.extra.items():
             res.extra[kk] = vv
         res.samples += dres.samples[:1]
+        if not ctx.replay or (ctx.replay.get("witness") or {}).get("params", {}).get("who"):
+            sp = startup_params(ctx, random.Random(ctx.seed * 1721 + 17))
+            if ctx.replay:
+                sp = [ctx.replay["witness"]["params"]]
+            sres = core.Result()
+            simrun.run_scenarios(sres, b, scn_startup, sp, jobs=ctx.jobs)
+            res.violations += sres.violations
+            res.harness_errors += sres.harness_errors
+            res.evaluations += sres.evaluations
+            res.inconclusive += sres.inconclusive
+            for sig in sres.nontrivial:
+                res.nt(sig)
+            for kk, vv in sres.extra.items():
+                res.extra[kk] = vv
     res.exhaustive = bool(matchlen >= 8)
     res.extra["exhaustive_subspace"] = (
         "validation: all strings of length 0..7 over {a,A,b,-,.,*,0} x allow_wildcard {0,1}; "
